@@ -171,7 +171,7 @@ def run(ctx, chk):
             got = ""
             if len(r) == 1 and not r[0].guards:
                 base, ids = an.peel_posts(r[0].raw.ret)
-                Np = nf.Norm(env=r[0].raw.env)
+                Np = an.norm_of(r[0])
                 nb = Np(base)
                 evs = [x for x in r[0].calls if x[3].idx in ids]
                 got = "%s then %s" % (show(nb), [(short(x[0]), [show(a) for a in x[1][1:]]) for x in evs])
